@@ -3316,8 +3316,16 @@ impl Gen<'_> {
             self.line(&format!("do relay({p}) start return user({p}) end"));
         }
         self.open("do host() start");
-        self.line(&format!("do {h}({p}) start return {r2}{plus} end"));
-        self.line(&format!("shout({h}({a}))"));
+        // the host's private function of the same name takes one parameter MORE in a third of the cases: a call
+        // that reaches it by name instead of by binding has the wrong number of arguments
+        let wider = self.ch(1, 3);
+        let (hp, ha) = if wider {
+            (if with_param { "q, z".to_string() } else { "z".to_string() }, if with_param { "4, 9".to_string() } else { "9".to_string() })
+        } else {
+            (p.to_string(), a.to_string())
+        };
+        self.line(&format!("do {h}({hp}) start return {r2}{plus} end"));
+        self.line(&format!("shout({h}({ha}))"));
         self.line(&format!("shout(user({a}))"));
         let mut outs = 2;
         match self.below(3) {
